@@ -1,2 +1,541 @@
-(* C02 — Proofs (filled in as the theorems close) *)
-From Dastard Require Import Common.ZX Pipeline.Stream C01.Model C01.Spec.
+(* C02 — proofs: the accounting invariant across blocks and control operations (DESIGN appendix A). *)
+From Dastard Require Import Common.ZX Pipeline.Stream C01.Model C01.Spec C01.Proofs C02.Spec.
+From Coq Require Import ZifyBool ZifyNat.
+
+(* ---------- lists ---------- *)
+
+Lemma znth_app_l {A} (d : A) l1 l2 i : i < zlen l1 -> znth d (l1 ++ l2) i = znth d l1 i.
+Proof.
+  unfold znth, zlen; intros H. destruct (i <? 0) eqn:E; [reflexivity|].
+  apply app_nth1. lia.
+Qed.
+
+Lemma znth_zskipn {A} (d : A) n l i : 0 <= n -> 0 <= i -> znth d (zskipn n l) i = znth d l (n + i).
+Proof.
+  unfold znth, zskipn; intros Hn Hi. destruct (i <? 0) eqn:E; [lia|].
+  destruct (n + i <? 0) eqn:E2; [lia|]. rewrite nth_skipn_add. f_equal. lia.
+Qed.
+
+Lemma in_zrange k a n : In k (zrange a n) <-> a <= k < a + n.
+Proof.
+  unfold zrange. destruct (Z.le_gt_cases n 0) as [Hn|Hn].
+  - replace (Z.to_nat n) with 0%nat by lia. cbn. lia.
+  - rewrite <- (Z2Nat.id n) at 2 by lia. generalize (Z.to_nat n). clear. intros m. revert a.
+    induction m as [|m IH]; intros a; cbn [zrange_nat In]; [lia|]. rewrite IH. lia.
+Qed.
+
+Lemma last_opt_rev l m : last_opt l = Some m -> exists rest, rev l = m :: rest.
+Proof.
+  induction l as [|x l IH]; [discriminate|]. destruct l as [|y l].
+  - intros H; inversion H; subst. exists []. reflexivity.
+  - intros H. change (last_opt (y :: l) = Some m) in H. destruct (IH H) as [rest Hr].
+    exists (rest ++ [x]). change (rev (x :: y :: l)) with (rev (y :: l) ++ [x]). now rewrite Hr.
+Qed.
+
+Lemma last_opt_map (f : Z -> Z) l : last_opt (map f l) = option_map f (last_opt l).
+Proof.
+  induction l as [|x l IH]; [reflexivity|]. destruct l as [|y l]; [reflexivity|].
+  change (last_opt (f x :: map f (y :: l)) = option_map f (last_opt (y :: l))).
+  rewrite <- IH. reflexivity.
+Qed.
+
+Lemma spaced_pair d lo l x y : 0 <= d -> spaced d lo l -> In x l -> In y l -> x < y -> d <= y - x.
+Proof.
+  intros Hd. revert lo. induction l as [|z l IH]; intros lo Hs Hx Hy Hlt; [destruct Hx|].
+  cbn [spaced] in Hs. destruct Hs as [H1 H2].
+  destruct Hx as [->|Hx]; destruct Hy as [->|Hy].
+  - lia.
+  - pose proof (spaced_ge d _ _ Hd H2 _ Hy). lia.
+  - pose proof (spaced_ge d _ _ Hd H2 _ Hx). lia.
+  - eapply IH; eassumption.
+Qed.
+
+(* ---------- criteria: stream positions vs absolute frames ---------- *)
+
+Lemma shift_eq sg v : shift sg v = if sg then (v + 32768) mod 65536 else v.
+Proof. reflexivity. Qed.
+
+Lemma gval_rel b st i :
+  StreamInv (bi_G b) (bi_F0 b) st -> st_signed st = seg_signed (bi_seg b) -> 0 <= i ->
+  gval b (st_first st + i) = shift (st_signed st) (znth 0 (st_data st) i).
+Proof.
+  intros [Hl Hd Hf] Hs Hi. unfold gval. rewrite <- Hs, shift_eq.
+  pose proof (zlen_nonneg (st_data st)).
+  assert (E : znth 0 (st_data st) i = znth 0 (bi_G b) (zlen (bi_G b) - zlen (st_data st) + i)).
+  { rewrite Hd at 1. now rewrite znth_zskipn by lia. }
+  rewrite E.
+  replace (st_first st + i - bi_F0 b) with (zlen (bi_G b) - zlen (st_data st) + i) by lia. reflexivity.
+Qed.
+
+Lemma in_ground_rel b st i :
+  StreamInv (bi_G b) (bi_F0 b) st -> 0 <= i < zlen (st_data st) -> in_ground b (st_first st + i) = true.
+Proof. intros [Hl Hd Hf] Hi. unfold in_ground. lia. Qed.
+
+Lemma edge_crit_rel b st i :
+  StreamInv (bi_G b) (bi_F0 b) st -> st_signed st = seg_signed (bi_seg b) -> 3 <= i < zlen (st_data st) ->
+  edge_crit b (st_first st + i) = edge_at (bi_ts b) (st_signed st) (st_data st) i.
+Proof.
+  intros Hst Hs Hi. unfold edge_crit, edge_at, edge_test.
+  replace (st_first st + i - 3) with (st_first st + (i - 3)) by lia.
+  replace (st_first st + i - 2) with (st_first st + (i - 2)) by lia.
+  replace (st_first st + i - 1) with (st_first st + (i - 1)) by lia.
+  rewrite !in_ground_rel by (assumption || lia).
+  rewrite !gval_rel by (assumption || lia). reflexivity.
+Qed.
+
+Lemma level_crit_rel b st i :
+  StreamInv (bi_G b) (bi_F0 b) st -> st_signed st = seg_signed (bi_seg b) -> 1 <= i < zlen (st_data st) ->
+  level_crit b (st_first st + i) =
+  level_at (bi_ts b) (st_signed st) (st_data st)
+           (if st_signed st then u16 (ts_levellevel (bi_ts b) + 32768) else ts_levellevel (bi_ts b)) i.
+Proof.
+  intros Hst Hs Hi. unfold level_crit, level_at, level_test.
+  replace (st_first st + i - 1) with (st_first st + (i - 1)) by lia.
+  rewrite !in_ground_rel by (assumption || lia).
+  rewrite !gval_rel by (assumption || lia). rewrite <- Hs. unfold u16.
+  destruct (ts_levelrising (bi_ts b)); cbn [andb orb negb]; [now rewrite orb_false_r|reflexivity].
+Qed.
+
+(* the criteria at k only look at the settings, the signedness, F0 and G[k-3 .. k] *)
+Lemma gval_ext b b' x k :
+  seg_signed (bi_seg b') = seg_signed (bi_seg b) -> bi_F0 b' = bi_F0 b -> bi_G b' = bi_G b ++ x ->
+  k - bi_F0 b < zlen (bi_G b) -> gval b' k = gval b k.
+Proof. intros Hs Hf Hg Hk. unfold gval. rewrite Hs, Hf, Hg. now rewrite znth_app_l by lia. Qed.
+
+Lemma in_ground_ext b b' x k :
+  bi_F0 b' = bi_F0 b -> bi_G b' = bi_G b ++ x -> k - bi_F0 b < zlen (bi_G b) -> in_ground b' k = in_ground b k.
+Proof.
+  intros Hf Hg Hk. unfold in_ground. rewrite Hf, Hg, zlen_app. pose proof (zlen_nonneg x). lia.
+Qed.
+
+Lemma edge_crit_ext b b' x k :
+  bi_ts b' = bi_ts b -> seg_signed (bi_seg b') = seg_signed (bi_seg b) -> bi_F0 b' = bi_F0 b ->
+  bi_G b' = bi_G b ++ x -> k - bi_F0 b < zlen (bi_G b) -> edge_crit b' k = edge_crit b k.
+Proof.
+  intros Ht Hs Hf Hg Hk. unfold edge_crit. rewrite Ht.
+  rewrite !(in_ground_ext b b' x) by (assumption || lia).
+  rewrite !(gval_ext b b' x) by (assumption || lia). reflexivity.
+Qed.
+
+Lemma level_crit_ext b b' x k :
+  bi_ts b' = bi_ts b -> seg_signed (bi_seg b') = seg_signed (bi_seg b) -> bi_F0 b' = bi_F0 b ->
+  bi_G b' = bi_G b ++ x -> k - bi_F0 b < zlen (bi_G b) -> level_crit b' k = level_crit b k.
+Proof.
+  intros Ht Hs Hf Hg Hk. unfold level_crit. rewrite Ht, Hs.
+  rewrite !(in_ground_ext b b' x) by (assumption || lia).
+  rewrite !(gval_ext b b' x) by (assumption || lia). reflexivity.
+Qed.
+
+(* ---------- the auto scan: spacing of its triggers ---------- *)
+
+Lemma auto_loop_slots raw veto npre nsamp dly :
+  1 <= nsamp -> nsamp <= dly ->
+  forall fuel c found l, spaced 0 (c - dly) found ->
+    auto_loop fuel raw veto npre nsamp dly c found = Ok l ->
+    spaced dly c l /\ forall t, In t l -> forall f, In f found -> f < t -> dly <= t - f.
+Proof.
+  intros Hn Hd. induction fuel as [|fu IH]; intros c found l Hsp Hl; [discriminate|].
+  cbn [auto_loop] in Hl. destruct (c + nsamp - npre <? zlen raw) eqn:Elt.
+  2:{ inversion Hl; subst. split; [exact I|]. intros t []. }
+  assert (Hemit : (forall f, In f found -> c + nsamp <= f) ->
+            match vetoed raw veto (c - npre) nsamp with
+            | Panic => Panic
+            | Ok v => match auto_loop fu raw veto npre nsamp dly (c + dly) found with
+                      | Ok l => Ok (if v then l else c :: l) | Panic => Panic end
+            end = Ok l ->
+            spaced dly c l /\ forall t, In t l -> forall f, In f found -> f < t -> dly <= t - f).
+  { intros Hall H. destruct (vetoed raw veto (c - npre) nsamp) as [v|]; [|discriminate].
+    destruct (auto_loop fu raw veto npre nsamp dly (c + dly) found) as [l'|] eqn:El'; [|discriminate].
+    assert (Hsp' : spaced 0 (c + dly - dly) found).
+    { destruct found as [|nf rest]; [exact I|]. cbn [spaced] in *. split; [|tauto].
+      specialize (Hall nf ltac:(now left)). lia. }
+    destruct (IH _ _ _ Hsp' El') as [S1 S2]. inversion H; subst l; clear H. destruct v.
+    - split; [eapply spaced_weaken; [|exact S1]; lia|exact S2].
+    - split; [cbn [spaced]; split; [lia|exact S1]|].
+      intros t [<-|Ht] f Hf Hlt; [specialize (Hall f Hf); lia|]. eapply S2; eassumption. }
+  destruct found as [|nf rest].
+  - apply Hemit; [intros f []|exact Hl].
+  - cbn [spaced] in Hsp. destruct Hsp as [Hnf Hrest].
+    destruct (c + nsamp <=? nf) eqn:Eok.
+    + apply Hemit; [|exact Hl]. intros f [<-|Hf]; [lia|].
+      pose proof (spaced_ge 0 _ _ ltac:(lia) Hrest _ Hf). lia.
+    + assert (Hsp' : spaced 0 (nf + dly - dly) rest) by (replace (nf + dly - dly) with (nf + 0) by lia; exact Hrest).
+      destruct (IH _ _ _ Hsp' Hl) as [S1 S2]. split; [eapply spaced_weaken; [|exact S1]; lia|].
+      intros t Ht f [<-|Hf] Hlt.
+      * pose proof (spaced_ge dly _ _ ltac:(lia) S1 _ Ht). lia.
+      * eapply S2; eassumption.
+Qed.
+
+(* ---------- the accounting invariant ---------- *)
+
+Definition acc_edge (T : list Z) (nsamp k : Z) : Prop := exists t, In t T /\ (t = k \/ t < k <= t + nsamp).
+Definition acc_level (T : list Z) (nsamp k : Z) : Prop := exists t, In t T /\ Z.abs (k - t) < nsamp.
+
+Lemma acc_edge_mono T T' nsamp k : (forall t, In t T -> In t T') -> acc_edge T nsamp k -> acc_edge T' nsamp k.
+Proof. intros H [t [Ht Hr]]. exists t. split; auto. Qed.
+Lemma acc_level_mono T T' nsamp k : (forall t, In t T -> In t T') -> acc_level T nsamp k -> acc_level T' nsamp k.
+Proof. intros H [t [Ht Hr]]. exists t. split; auto. Qed.
+
+Lemma gaps_ge_map d d' F x lo l :
+  d' <= d -> d' <= lo + F - x -> spaced d lo l -> gaps_ge d' x (map (fun i => F + i) l).
+Proof.
+  intros Hd. revert x lo. induction l as [|y l IH]; intros x lo Hx Hs; cbn [map gaps_ge]; [exact I|].
+  cbn [spaced] in Hs. destruct Hs as [H1 H2]. split; [lia|].
+  apply (IH _ (y + d)); [lia|exact H2].
+Qed.
+
+Section Hist.
+Variables (F0 p : Z) (sgn : bool).
+Hypothesis HF0 : 0 <= F0.
+
+Definition dummy_seg : segment :=
+  {| seg_data := []; seg_first := 0; seg_time := 0; seg_period := 0; seg_signed := sgn |}.
+(* the checker's view of "now": settings in force, ground truth so far *)
+Definition cur (s : sstate) : binfo :=
+  mkbi (s_npre s) (s_nsamp s) (s_ts s) F0 (s_G s) dummy_seg (s_S s) (s_epoch s) (s_all s) [].
+Definition s_end (s : sstate) : Z := F0 + zlen (s_G s).
+(* candidates below s_A are accounted for *)
+Definition s_A (s : sstate) : Z := Z.max (s_S s + s_npre s) (s_end s - (s_nsamp s - s_npre s)).
+
+Record Inv2 (d : dsp) (s : sstate) : Prop := {
+  v_inv1 : Inv1 F0 p d (s_G s);
+  v_npre : d_npre d = s_npre s;
+  v_nsamp : d_nsamp d = s_nsamp s;
+  v_ts : d_ts d = s_ts s;
+  v_S : s_S s <= s_end s;
+  v_S0 : F0 <= s_S s;
+  v_sub : forall u, In u (s_epoch s) -> In u (s_all s);
+  v_last : d_last d = far_past \/ In (d_last d) (s_all s);
+  v_lastA : d_last d < s_A s;
+  v_lastE : d_last d < s_end s;
+  v_keep : s_end s - zlen (st_data (d_stream d)) + s_npre s <= s_A s;
+  v_edge : ts_edge (s_ts s) = true ->
+           forall k, s_S s + s_npre s <= k < s_A s -> edge_crit (cur s) k = true -> acc_edge (s_all s) (s_nsamp s) k;
+  v_level : ts_level (s_ts s) = true ->
+            forall k, s_S s + s_npre s <= k < s_A s -> level_crit (cur s) k = true -> acc_level (s_all s) (s_nsamp s) k;
+  v_epoch_le : forall u, In u (s_epoch s) -> u <= d_last d;
+  v_epoch_last : forall q rest, rev (s_epoch s) = q :: rest -> q = d_last d
+}.
+
+(* the first four judgements on a block (the auto gap bound is added further down) *)
+Definition block_ok4 (b : binfo) : Prop := sound b /\ edge_complete b /\ level_complete b /\ no_overlap b.
+
+Lemma block_step d s sg :
+  Inv2 d s -> seg_period sg = p -> seg_signed sg = sgn -> seg_first sg = F0 + zlen (s_G s) ->
+  exists d' recs, process_block d sg = Ok (d', recs) /\
+    block_ok4 (mkbi (s_npre s) (s_nsamp s) (s_ts s) F0 (s_G s ++ seg_data sg) sg (s_S s) (s_epoch s) (s_all s) recs) /\
+    Inv2 d' (mkss (s_npre s) (s_nsamp s) (s_ts s) (s_G s ++ seg_data sg) (s_S s)
+                  (s_epoch s ++ map r_frame recs) (s_all s ++ map r_frame recs)).
+Proof.
+  intros [HI Hnp Hns Hts HS HS0 Hsub Hlast HlastA HlastE Hkeep Hedge Hlevel Hle Hlst] Hper Hsg Hfirst.
+  destruct (process_block_spec F0 p d (s_G s) sg HI Hfirst Hper) as [E [L [A [idx [recs [Hpb [Hsc [HF [Hst [_ [_ HI']]]]]]]]]]].
+  pose proof HI as [_ Hp3 Hs1 Hmax _ _ _].
+  exists (after_block (appended d sg) idx), recs. split; [exact Hpb|].
+  set (d1 := appended d sg) in *. set (st1 := d_stream d1) in *.
+  set (b := mkbi (s_npre s) (s_nsamp s) (s_ts s) F0 (s_G s ++ seg_data sg) sg (s_S s) (s_epoch s) (s_all s) recs).
+  set (s' := mkss (s_npre s) (s_nsamp s) (s_ts s) (s_G s ++ seg_data sg) (s_S s)
+                  (s_epoch s ++ map r_frame recs) (s_all s ++ map r_frame recs)).
+  set (npre := s_npre s) in *. set (nsamp := s_nsamp s) in *. set (ts := s_ts s) in *.
+  set (F1 := st_first st1). set (nd := zlen (st_data st1)).
+  set (lold := zlen (st_data (d_stream d))) in *.
+  pose proof (zlen_nonneg (st_data (d_stream d))) as Hlold. fold lold in Hlold.
+  pose proof (zlen_nonneg (seg_data sg)) as Hnn.
+  assert (HF1 : F1 = s_end s - lold) by (unfold F1, st1, d1, s_end; cbn; unfold lold; lia).
+  assert (Hnd : nd = lold + zlen (seg_data sg)) by (unfold nd, st1, d1; cbn; now rewrite zlen_app).
+  assert (Hend' : s_end s' = s_end s + zlen (seg_data sg)) by (unfold s_end, s'; cbn [s_G]; rewrite zlen_app; lia).
+  assert (HendF : s_end s' = F1 + nd) by lia.
+  assert (Hsg1 : st_signed st1 = sgn) by (unfold st1, d1; cbn; exact Hsg).
+  assert (Hd1 : d_npre d1 = npre /\ d_nsamp d1 = nsamp /\ d_ts d1 = ts /\ d_last d1 = d_last d).
+  { unfold d1. cbn. auto. }
+  destruct Hd1 as [Hd1a [Hd1b [Hd1c Hd1d]]].
+  assert (Hp3' : 3 <= npre) by lia. assert (Hs1' : npre + 1 <= nsamp) by lia.
+  assert (Hmax' : nsamp <= max_nsamp) by lia. unfold max_nsamp in Hmax'.
+  (* first potential trigger, in frames *)
+  set (fp := first_potential d1).
+  assert (Hfp : F1 + fp = Z.max (F1 + npre) (d_last d + nsamp)).
+  { unfold fp, first_potential. fold st1. fold F1. rewrite Hd1a, Hd1b, Hd1d. destruct (_ <? _) eqn:E0; lia. }
+  set (e := nd + npre - nsamp).
+  assert (Hdec : dec_end b = F1 + e).
+  { change (dec_end b) with (s_end s' - (nsamp - npre)). rewrite HendF. unfold e. lia. }
+  assert (HfirstC : first_cand b = s_S s + npre) by reflexivity.
+  (* trigger frames *)
+  assert (Htr : map r_frame recs = map (fun i => F1 + i) idx).
+  { apply (cut_frames st1 (d_npre d) (d_nsamp d)). exact HF. }
+  assert (Htrigs : trigs b = map (fun i => F1 + i) idx) by (unfold trigs, bi_trigs; exact Htr).
+  assert (Hin_tr : forall t, In t (trigs b) <-> exists i, In i idx /\ t = F1 + i).
+  { intros t. rewrite Htrigs, in_map_iff. split; intros [i [H1 H2]]; exists i; split; auto. }
+  (* scans, with the abbreviations *)
+  pose proof (sc_edge _ _ _ _ _ Hsc) as SE. pose proof (sc_level _ _ _ _ _ Hsc) as SL.
+  pose proof (sc_in _ _ _ _ _ Hsc) as SI. pose proof (sc_range _ _ _ _ _ Hsc) as SR.
+  pose proof (sc_sorted _ _ _ _ _ Hsc) as SS.
+  rewrite Hd1c in SE, SL. rewrite Hd1a, Hd1b in SE. rewrite Hd1a, Hd1b in SL. rewrite Hd1a, Hd1b in SR. rewrite Hd1a in SS.
+  fold st1 in SE, SL, SR. fold nd in SE, SL, SR. fold fp in SE, SL. fold e in SE, SL. rewrite Hsg1 in SE, SL.
+  (* criteria on the block's view = on stream positions *)
+  assert (HbG : StreamInv (bi_G b) (bi_F0 b) st1) by exact Hst.
+  assert (Hbs : st_signed st1 = seg_signed (bi_seg b)) by (unfold b; cbn [bi_seg]; rewrite Hsg1; now symmetry).
+  assert (Hec : forall i, 3 <= i < nd -> edge_crit b (F1 + i) = edge_at ts sgn (st_data st1) i).
+  { intros i Hi. unfold F1. rewrite (edge_crit_rel b st1 i HbG Hbs Hi). now rewrite Hsg1. }
+  assert (Hlc : forall i, 1 <= i < nd -> level_crit b (F1 + i) =
+            level_at ts sgn (st_data st1) (if sgn then u16 (ts_levellevel ts + 32768) else ts_levellevel ts) i).
+  { intros i Hi. unfold F1. rewrite (level_crit_rel b st1 i HbG Hbs Hi). now rewrite Hsg1. }
+  (* ranges of E and L *)
+  assert (HEr : forall i, In i E -> fp <= i < e /\ ts_edge ts = true /\ edge_at ts sgn (st_data st1) i = true).
+  { intros i Hi. destruct (ts_edge ts); [|subst E; destruct Hi].
+    destruct (el_range _ _ _ _ _ _ _ SE i Hi). auto. }
+  assert (HLr : forall i, In i L -> fp <= i < e /\ ts_level ts = true /\
+            level_at ts sgn (st_data st1) (if sgn then u16 (ts_levellevel ts + 32768) else ts_levellevel ts) i = true).
+  { intros i Hi. destruct (ts_level ts); [|subst L; destruct Hi].
+    destruct (ll_range _ _ _ _ _ _ _ _ _ SL i Hi). auto. }
+  pose proof (first_potential_ge d1) as Hfpge. fold fp in Hfpge. rewrite Hd1a in Hfpge.
+  assert (He_nd : e <= nd - 1) by (unfold e; lia).
+  (* all triggers of the block lie in [F1 + npre, dec_end) *)
+  assert (Htr_range : forall t, In t (trigs b) -> F1 + npre <= t < F1 + e).
+  { intros t Ht. apply Hin_tr in Ht. destruct Ht as [i [Hi ->]]. destruct (SR i Hi). unfold e. lia. }
+  assert (Hkeep' : F1 + npre <= s_A s) by (rewrite HF1; exact Hkeep).
+  assert (HA_mono : s_A s <= s_A s').
+  { unfold s_A. cbn [s_S s_npre s_nsamp s']. fold npre nsamp. rewrite Hend'. lia. }
+  assert (HA' : s_A s' = Z.max (s_S s + npre) (F1 + e)).
+  { unfold s_A. cbn [s_S s_npre s_nsamp s']. fold npre nsamp. unfold e. lia. }
+  assert (Hlen_le : lold <= zlen (s_G s)).
+  { destruct (i1_stream _ _ _ _ HI) as [[H1 _ _]|[H1 H2]]; [exact H1|]. unfold lold. rewrite H1, H2. reflexivity. }
+  assert (Hfar : d_last d = far_past -> d_last d + nsamp <= F1 + npre).
+  { intros ->. unfold far_past. unfold s_end in HF1. lia. }
+  (* ---- completeness ---- *)
+  assert (Hcur_e : forall k, k < s_end s -> edge_crit b k = edge_crit (cur s) k).
+  { intros k Hk. apply (edge_crit_ext (cur s) b (seg_data sg)); try reflexivity.
+    - cbn. now symmetry.
+    - cbn. unfold s_end in Hk. lia. }
+  assert (Hcur_l : forall k, k < s_end s -> level_crit b k = level_crit (cur s) k).
+  { intros k Hk. apply (level_crit_ext (cur s) b (seg_data sg)); try reflexivity.
+    - cbn. now symmetry.
+    - cbn. unfold s_end in Hk. lia. }
+  assert (Hall_l : forall t, In t (s_all s) -> In t (all_trigs b)).
+  { intros t Ht. unfold all_trigs. apply in_or_app. now left. }
+  assert (Hall_r : forall i, In i idx -> In (F1 + i) (all_trigs b)).
+  { intros i Hi. unfold all_trigs. apply in_or_app. right. apply Hin_tr. eauto. }
+  assert (HEC : edge_complete b).
+  { intros Hte k [Hk1 Hk2] Hck. rewrite HfirstC in Hk1. rewrite Hdec in Hk2.
+    change (bi_ts b) with ts in Hte. unfold edge_accounted. change (bi_nsamp b) with nsamp.
+    destruct (Z.lt_ge_cases k (s_A s)) as [HkA|HkA].
+    - (* accounted before this block *)
+      assert (Hke : k < s_end s) by (unfold s_A in HkA; fold npre nsamp in HkA; lia).
+      rewrite (Hcur_e k Hke) in Hck.
+      destruct (Hedge Hte k ltac:(fold npre; lia) Hck) as [t [Ht Hr]]. exists t. split; [auto|exact Hr].
+    - destruct (Z.lt_ge_cases k (F1 + fp)) as [Hkf|Hkf].
+      + (* between the accounted range and this scan: dead time of the last trigger *)
+        assert (Hk3 : k < d_last d + nsamp) by lia.
+        destruct Hlast as [Hfp0|Hin]; [specialize (Hfar Hfp0); lia|].
+        exists (d_last d). split; [auto|]. right. lia.
+      + (* scanned now *)
+        rewrite Hte in SE.
+        assert (Hki : fp <= k - F1 < e) by lia.
+        assert (Hck' : edge_at ts sgn (st_data st1) (k - F1) = true).
+        { rewrite <- Hec by lia. now replace (F1 + (k - F1)) with k by lia. }
+        destruct (el_complete _ _ _ _ _ _ _ SE (k - F1) Hki Hck') as [Hin|[t [Ht Hr]]].
+        * exists k. split; [|now left]. replace k with (F1 + (k - F1)) by lia. apply Hall_r, SI. now left.
+        * exists (F1 + t). split; [apply Hall_r, SI; now left|]. right. lia. }
+  assert (HLC : level_complete b).
+  { intros Hte k [Hk1 Hk2] Hck. rewrite HfirstC in Hk1. rewrite Hdec in Hk2.
+    change (bi_ts b) with ts in Hte. unfold level_accounted. change (bi_nsamp b) with nsamp.
+    destruct (Z.lt_ge_cases k (s_A s)) as [HkA|HkA].
+    - assert (Hke : k < s_end s) by (unfold s_A in HkA; fold npre nsamp in HkA; lia).
+      rewrite (Hcur_l k Hke) in Hck.
+      destruct (Hlevel Hte k ltac:(fold npre; lia) Hck) as [t [Ht Hr]]. exists t. split; [auto|exact Hr].
+    - destruct (Z.lt_ge_cases k (F1 + fp)) as [Hkf|Hkf].
+      + assert (Hk3 : k < d_last d + nsamp) by lia.
+        destruct Hlast as [Hfp0|Hin]; [specialize (Hfar Hfp0); lia|].
+        exists (d_last d). split; [auto|]. lia.
+      + rewrite Hte in SL.
+        assert (Hki : fp <= k - F1 < e) by lia.
+        assert (Hck' : level_at ts sgn (st_data st1) (if sgn then u16 (ts_levellevel ts + 32768) else ts_levellevel ts) (k - F1) = true).
+        { rewrite <- Hlc by lia. now replace (F1 + (k - F1)) with k by lia. }
+        destruct (ll_complete _ _ _ _ _ _ _ _ _ SL (k - F1) Hki Hck') as [Hin|[f [Hf Hr]]].
+        * exists k. split; [|lia]. replace k with (F1 + (k - F1)) by lia. apply Hall_r, SI. right. now left.
+        * exists (F1 + f). split; [apply Hall_r, SI; now left|]. lia. }
+  assert (Hc0g : d_last d - F1 + auto_dly_of d1 <= first_potential_auto d1 /\ nsamp <= auto_dly_of d1).
+  { unfold first_potential_auto. fold st1. fold F1. rewrite Hd1d.
+    unfold auto_dly_of. rewrite Hd1a, Hd1b, Hd1c.
+    destruct (ts_autodelay ts >? nsamp) eqn:E1; destruct (ts_autodelay ts <? nsamp) eqn:E2;
+      destruct (_ <? npre) eqn:E3; lia. }
+  (* ---- soundness ---- *)
+  assert (HSND : sound b).
+  { intros t Ht. apply Hin_tr in Ht. destruct Ht as [i [Hi ->]]. change (bi_ts b) with ts.
+    apply SI in Hi. destruct Hi as [Hi|[Hi|Hi]].
+    - left. destruct (HEr i Hi) as [Hr [Hte Hc]]. split; [exact Hte|]. rewrite Hec by lia. exact Hc.
+    - right. left. destruct (HLr i Hi) as [Hr [Hte Hc]]. split; [exact Hte|]. rewrite Hlc by lia. exact Hc.
+    - right. right. pose proof (sc_auto _ _ _ _ _ Hsc) as SA. rewrite Hd1c in SA.
+      destruct (ts_auto ts) eqn:Ea; [|subst A; destruct Hi]. split; [reflexivity|].
+      destruct SA as [fuel [EL [Hloop [Hsp HELin]]]].
+      set (dly := auto_dly_of d1) in *. set (c0 := first_potential_auto d1) in *.
+      assert (Hdly : dly = auto_dly b).
+      { unfold dly, auto_dly_of, auto_dly. rewrite Hd1b, Hd1c. change (bi_ts b) with ts. change (bi_nsamp b) with nsamp.
+        destruct (_ <? _) eqn:E0; lia. }
+      assert (Hdn : nsamp <= dly) by (rewrite Hdly; unfold auto_dly; change (bi_nsamp b) with nsamp; lia).
+      rewrite Hd1a, Hd1b in Hloop.
+      assert (Hn1 : 1 <= nsamp) by lia.
+      destruct (auto_loop_slots _ _ _ _ _ Hn1 Hdn _ _ _ _ Hsp Hloop) as [S1 S2].
+      destruct Hc0g as [Hc0 _]. fold dly c0 in Hc0.
+      pose proof (spaced_ge dly _ _ ltac:(lia) S1 _ Hi) as Hci.
+      intros u Hu Hlt. rewrite <- Hdly. unfold epoch_trigs in Hu. apply in_app_or in Hu. destruct Hu as [Hu|Hu].
+      + change (bi_prev b) with (s_epoch s) in Hu. specialize (Hle u Hu). lia.
+      + apply Hin_tr in Hu. destruct Hu as [j [Hj ->]]. apply SI in Hj.
+        assert (Hji : j < i) by lia.
+        destruct Hj as [Hj|[Hj|Hj]].
+        * specialize (S2 i Hi j (proj2 (HELin j) (or_introl Hj)) Hji). lia.
+        * specialize (S2 i Hi j (proj2 (HELin j) (or_intror Hj)) Hji). lia.
+        * pose proof (spaced_pair dly _ _ j i ltac:(lia) S1 Hj Hi Hji). lia. }
+  (* ---- no overlap ---- *)
+  assert (HNO : no_overlap b).
+  { unfold no_overlap, only_edge. change (bi_ts b) with ts. change (bi_nsamp b) with nsamp. change (bi_prev b) with (s_epoch s).
+    intros Hoe. assert (Hte : ts_edge ts = true) by lia. assert (Htl : ts_level ts = false) by lia.
+    assert (Hta : ts_auto ts = false) by lia.
+    assert (HidxE : idx = E) by (apply (sc_only_edge _ _ _ _ _ Hsc); rewrite Hd1c; assumption).
+    rewrite Hte in SE. pose proof (el_spaced _ _ _ _ _ _ _ SE) as Hsp. rewrite Htrigs, HidxE.
+    destruct (rev (s_epoch s)) as [|q rest] eqn:Er.
+    - destruct E as [|i E']; cbn [map]; [exact I|].
+      cbn [spaced] in Hsp. destruct Hsp as [H1 H2].
+      apply (gaps_ge_map (nsamp + 1) nsamp F1 (F1 + i) (i + (nsamp + 1))); [lia|lia|exact H2].
+    - pose proof (Hlst q rest eq_refl) as Hq. subst q.
+      apply (gaps_ge_map (nsamp + 1) nsamp F1 (d_last d) fp); [lia|lia|exact Hsp]. }
+  split; [repeat split; assumption|].
+  (* ---- the invariant after the block ---- *)
+  set (Lnew := match last_opt idx with Some i => F1 + i | None => d_last d end).
+  assert (Hd'last : d_last (after_block d1 idx) = Lnew).
+  { unfold after_block, Lnew. cbn [d_last set_stream set_last]. fold st1. fold F1. now rewrite Hd1d. }
+  assert (HLnew : (last_opt idx = None /\ idx = [] /\ Lnew = d_last d) \/
+                  (exists i, last_opt idx = Some i /\ In i idx /\ Lnew = F1 + i /\ forall j, In j idx -> j <= i)).
+  { unfold Lnew. destruct (last_opt idx) as [i|] eqn:El.
+    - right. destruct (last_opt_spaced _ _ _ SS El) as [H1 H2]. exists i. auto.
+    - left. split; [reflexivity|]. split; [now apply last_opt_none|reflexivity]. }
+  assert (Hd'len : zlen (st_data (d_stream (after_block d1 idx))) = Z.min nd (2 * nsamp + 10)).
+  { unfold after_block. cbn [d_stream set_stream set_last]. rewrite Hd1b. fold st1. unfold trim. fold nd.
+    destruct (2 * nsamp + 10 >=? nd) eqn:E0; [fold nd; lia|].
+    cbn [st_data]. rewrite zskipn_length; fold nd; lia. }
+  split.
+  - exact HI'.
+  - exact Hnp.
+  - exact Hns.
+  - exact Hts.
+  - cbn [s_S s']. lia.
+  - exact HS0.
+  - cbn [s_epoch s_all s']. intros u Hu. apply in_app_or in Hu. apply in_or_app. destruct Hu; [left; auto|now right].
+  - rewrite Hd'last. cbn [s_all s']. destruct HLnew as [[_ [_ ->]]|[i [_ [Hi [-> _]]]]].
+    + destruct Hlast; [now left|right; apply in_or_app; now left].
+    + right. apply in_or_app. right. rewrite Htr. apply in_map_iff. eauto.
+  - rewrite Hd'last, HA'. destruct HLnew as [[_ [_ ->]]|[i [_ [Hi [-> _]]]]]; [lia|].
+    destruct (SR i Hi). unfold e. lia.
+  - rewrite Hd'last, HendF. destruct HLnew as [[_ [_ ->]]|[i [_ [Hi [-> _]]]]]; [lia|].
+    destruct (SR i Hi). lia.
+  - rewrite Hd'len, HA', HendF. cbn [s_npre s']. fold npre. unfold e. lia.
+  - cbn [s_ts s_S s_npre s_nsamp s_all s']. fold ts npre nsamp. intros Hte k Hk Hck.
+    rewrite HA' in Hk.
+    assert (Hck' : edge_crit b k = true).
+    { rewrite <- Hck. apply (edge_crit_ext (cur s') b []); try reflexivity.
+      - cbn. now symmetry.
+      - symmetry. apply app_nil_r.
+      - change (k - F0 < zlen (s_G s')). fold (s_end s') in HendF. unfold s_end in HendF. lia. }
+    destruct (HEC Hte k ltac:(rewrite HfirstC, Hdec; lia) Hck') as [t [Ht Hr]]. exists t. split; [|exact Hr].
+    unfold all_trigs in Ht. exact Ht.
+  - cbn [s_ts s_S s_npre s_nsamp s_all s']. fold ts npre nsamp. intros Hte k Hk Hck.
+    rewrite HA' in Hk.
+    assert (Hck' : level_crit b k = true).
+    { rewrite <- Hck. apply (level_crit_ext (cur s') b []); try reflexivity.
+      - cbn. now symmetry.
+      - symmetry. apply app_nil_r.
+      - change (k - F0 < zlen (s_G s')). fold (s_end s') in HendF. unfold s_end in HendF. lia. }
+    destruct (HLC Hte k ltac:(rewrite HfirstC, Hdec; lia) Hck') as [t [Ht Hr]]. exists t. split; [|exact Hr].
+    unfold all_trigs in Ht. exact Ht.
+  - rewrite Hd'last. cbn [s_epoch s']. intros u Hu. apply in_app_or in Hu.
+    assert (HLge : d_last d <= Lnew).
+    { destruct HLnew as [[_ [_ ->]]|[i [_ [Hi [-> _]]]]]; [lia|].
+      assert (d_last d - F1 <= i).
+      { apply SI in Hi. destruct Hi as [Hi|[Hi|Hi]]; [apply HEr in Hi; lia|apply HLr in Hi; lia|].
+        pose proof (sc_auto _ _ _ _ _ Hsc) as SA. rewrite Hd1c in SA.
+        destruct (ts_auto ts); [|subst A; destruct Hi].
+        destruct SA as [fuel [EL [Hloop [Hsp HELin]]]]. rewrite Hd1a, Hd1b in Hloop.
+        destruct Hc0g as [Hc0 Hdn].
+        assert (Hn1 : 1 <= nsamp) by lia.
+        destruct (auto_loop_slots _ _ _ _ _ Hn1 Hdn _ _ _ _ Hsp Hloop) as [S1 _].
+        pose proof (spaced_ge (auto_dly_of d1) _ _ ltac:(lia) S1 _ Hi). lia. }
+      lia. }
+    destruct Hu as [Hu|Hu]; [specialize (Hle u Hu); lia|].
+    rewrite Htr in Hu. apply in_map_iff in Hu. destruct Hu as [j [<- Hj]].
+    destruct HLnew as [[_ [Hnil _]]|[i [_ [Hi [-> Hmaxi]]]]]; [subst idx; destruct Hj|].
+    specialize (Hmaxi j Hj). lia.
+  - rewrite Hd'last. cbn [s_epoch s']. intros q rest Hrev. rewrite rev_app_distr in Hrev.
+    destruct HLnew as [[_ [Hnil ->]]|[i [Hlo [Hi [-> _]]]]].
+    + rewrite Htr, Hnil in Hrev. cbn [map rev app] in Hrev. eapply Hlst; eassumption.
+    + rewrite Htr in Hrev.
+      assert (Hl2 : last_opt (map (fun i0 => F1 + i0) idx) = Some (F1 + i)) by (rewrite last_opt_map, Hlo; reflexivity).
+      destruct (last_opt_rev _ _ Hl2) as [rest' Hr']. rewrite Hr' in Hrev. cbn [app] in Hrev. now inversion Hrev.
+Qed.
+
+(* a control operation: the new epoch starts with nothing to account for *)
+Lemma epoch_start_inv2 d' s npre' nsamp' ts' :
+  Inv1 F0 p d' (s_G s) -> d_npre d' = npre' -> d_nsamp d' = nsamp' -> d_ts d' = ts' ->
+  (d_last d' = far_past \/ In (d_last d') (s_all s)) -> d_last d' < s_end s ->
+  Inv2 d' (new_epoch F0 s npre' nsamp' ts').
+Proof.
+  intros HI Hnp Hns Hts Hlast HlastE.
+  pose proof HI as [_ Hp3 Hs1 _ _ _ _]. rewrite Hnp in Hp3, Hs1. rewrite Hns in Hs1.
+  pose proof (zlen_nonneg (s_G s)) as HG. pose proof (zlen_nonneg (st_data (d_stream d'))) as Hl.
+  assert (HA : s_A (new_epoch F0 s npre' nsamp' ts') = s_end s + npre').
+  { unfold s_A, s_end, new_epoch. cbn [s_S s_npre s_nsamp s_G]. lia. }
+  split; try assumption.
+  - unfold s_end, new_epoch. cbn [s_S s_G]. lia.
+  - unfold new_epoch. cbn [s_S]. lia.
+  - intros u [].
+  - rewrite HA. lia.
+  - rewrite HA. unfold s_end, new_epoch. cbn [s_G s_npre]. unfold s_end in HlastE. lia.
+  - intros _ k Hk. rewrite HA in Hk. unfold new_epoch in Hk. cbn [s_S s_npre] in Hk. unfold s_end in Hk. lia.
+  - intros _ k Hk. rewrite HA in Hk. unfold new_epoch in Hk. cbn [s_S s_npre] in Hk. unfold s_end in Hk. lia.
+  - intros u [].
+  - intros q rest Hr. destruct rest; discriminate.
+Qed.
+
+Lemma fresh_inv2 npre nsamp ts :
+  lengths_ok npre nsamp = true -> nsamp <= max_nsamp ->
+  Inv2 (fresh_start npre nsamp ts) (init_sstate npre nsamp ts F0).
+Proof.
+  intros Hl Hm.
+  replace (init_sstate npre nsamp ts F0) with (new_epoch F0 (mkss npre nsamp (no_emulti ts) [] F0 [] []) npre nsamp (no_emulti ts)).
+  2:{ unfold new_epoch, init_sstate. cbn [s_G s_all]. f_equal. change (zlen (@nil Z)) with 0. lia. }
+  apply epoch_start_inv2; try reflexivity.
+  - apply fresh_inv1; assumption.
+  - now left.
+  - cbn. unfold far_past, s_end. cbn. lia.
+Qed.
+
+Definition op_ok2 (o : op) : Prop :=
+  op_ok p o /\ match o with Block sg => seg_signed sg = sgn | _ => True end.
+
+Lemma model_C02_4 npre nsamp ts ops :
+  lengths_ok npre nsamp = true -> nsamp <= max_nsamp -> contiguous F0 ops -> Forall op_ok2 ops ->
+  exists bs,
+    annotate F0 (init_sstate npre nsamp ts F0) (combine ops (run (fresh_start npre nsamp ts) ops)) = Some bs /\
+    forall b, In b bs -> block_ok4 b.
+Proof.
+  intros Hl Hm Hc HQ.
+  destruct (history_ind F0 Inv2 block_ok4 op_ok2) with (ops := ops)
+    (d := fresh_start npre nsamp ts) (s := init_sstate npre nsamp ts F0) as [bs [Ha [Hb _]]].
+  - intros d s sg HI [HQ1 HQ2] Hf. cbn [op_ok] in HQ1.
+    destruct (block_step d s sg HI HQ1 HQ2 Hf) as [d' [recs H]]. exists d', recs. exact H.
+  - intros d s ts' HI [HQ1 _]. cbn [op_ok] in HQ1.
+    pose proof HI as [H1 H2 H3 H4 _ _ _ _ _ _ _ _ _ _ _].
+    apply epoch_start_inv2; try assumption; try reflexivity.
+    + apply cfg_trig_inv1; assumption.
+    + now left.
+    + cbn. unfold far_past, s_end. pose proof (zlen_nonneg (s_G s)). lia.
+  - intros d s nsamp' npre' HI [HQ1 _]. cbn [op_ok] in HQ1.
+    pose proof HI as [H1 H2 H3 H4 _ _ _ H8 _ H10 _ _ _ _ _].
+    unfold cfg_len. destruct (lengths_ok npre' nsamp') eqn:El; cbn [fst].
+    + apply epoch_start_inv2; try assumption; try reflexivity.
+      pose proof (cfg_len_inv1 F0 p d (s_G s) nsamp' npre' H1 HQ1 El) as Hx. unfold cfg_len in Hx. now rewrite El in Hx.
+    + apply epoch_start_inv2; assumption.
+  - apply fresh_inv2; assumption.
+  - cbn. now rewrite Z.add_0_r.
+  - exact HQ.
+  - exists bs. split; assumption.
+Qed.
+
+End Hist.
